@@ -391,6 +391,10 @@ func sanitizeJSON(v any) any {
 
 // q quotes a string so that raw bytes stay visible in JSON.
 func q(s string) string {
+	if len(s) > 1<<15 {
+		// very long texts: head, tail and length (the case is regenerated from its index on replay anyway)
+		return q(s[:2000]) + fmt.Sprintf(" ...(%d bytes in all)... ", len(s)) + q(s[len(s)-500:])
+	}
 	if isPlainASCII(s) {
 		return s
 	}
